@@ -106,7 +106,9 @@ func rootState(l *lexer) stateFn {
 		l.emit(LeftAngleBracket)
 	case r == '>':
 		l.emit(RightAngleBracket)
-	case unicode.IsDigit(r):
+	case '0' <= r && r <= '9':
+		// only the digits acceptRun consumes: another Unicode digit here would
+		// emit empty Number tokens for ever without advancing
 		l.backup()
 		l.acceptRun("0123456789")
 		l.emit(Number)
